@@ -139,8 +139,8 @@ def step (s : St) : Act → Option St
   | .start list =>
     if s.pc = .idle then
       if startDisabled s.interval then some s        -- `return False`
-      else some (startNewTimer { s with running := true, threshold := startThreshold, reads := startReads,
-                                        writes := startWrites, exc := if list then some 0 else none,
+      else some (startNewTimer { s with running := true, threshold := startThreshold s.threshold, reads := startReads s.reads,
+                                        writes := startWrites s.writes, exc := if list then some 0 else none,
                                         lastOut := s.now, lastIn := s.now, lastReset := s.now,
                                         multi := s.multi || !s.timers.isEmpty })
     else none
